@@ -19,19 +19,8 @@ structure Wit where
 
 def Wit.results (w : Wit) : List Res := (run w.n w.p w.pool []).1.map (·.1)
 
-def wPanicIndex : Wit := ⟨.wrr [1, 1] 0, [upW 1 false, upW 2 true, upW 3 true], 1⟩
-def wPanicDivide : Wit := ⟨.wrr [0, 0] 0, [upW 1 true], 1⟩
 def wRRWrapNil : Wit := ⟨.rr 4294967294, [upW 1 false, upW 2 false, upW 3 true], 1⟩
 def wRRWrapRepeat : Wit := ⟨.rr 4294967294, [upW 1 true, upW 2 true, upW 3 true], 2⟩
-def wWeightsDown : Wit := ⟨.wrr [1, 3, 1] 0, [upW 1 false, upW 2 true, upW 3 true], 5⟩
-def wWeightsShortPool : Wit := ⟨.wrr [1, 2, 3] 0, [upW 1 true, upW 2 true], 6⟩
-
-/-- FULL: no selection panics. Fails: weighted round robin indexes `r.Weights[i]` for every
-    available upstream; pool longer than the weight list (weights 1,1; first of three down). -/
-theorem select_never_panics_full_fails_index : wPanicIndex.results = [.panicIdx] := by decide
-
-/-- FULL: no selection panics. Fails: `… % r.totalWeight` with two or more weights, all 0. -/
-theorem select_never_panics_full_fails_divide : wPanicDivide.results = [.panicDiv] := by decide
 
 /-- FULL: round robin returns an upstream whenever one is available. Fails when the uint32
     counter wraps and the pool size does not divide 2^32: from counter 2^32-2 the probes visit
@@ -44,18 +33,76 @@ theorem roundRobin_some_if_any_available_full_fails :
     three upstreams are available. -/
 theorem roundRobin_cycles_full_fails : wRRWrapRepeat.results = [.sel 0, .sel 0] := by decide
 
-/-- FULL: weighted round robin honours the weights (an upstream with a larger weight is not
-    chosen less often over a cycle). Fails when an upstream is down: weights 1,3,1, first
-    upstream unavailable; over the 5 selections of a cycle the weight-3 upstream (index 1) is
-    chosen twice, the weight-1 upstream (index 2) three times. -/
-theorem weightedRR_honours_weights_full_fails :
-    wWeightsDown.results = [.sel 2, .sel 2, .sel 2, .sel 1, .sel 1] := by decide
+/-! ### weighted round robin before its repair
 
-/-- the same clause fails when there are more weights than upstreams: weights 1,2,3 on two
-    available upstreams; over the 6 selections of a cycle the weight-1 upstream is chosen four
-    times, the weight-2 upstream twice -/
-theorem weightedRR_honours_weights_full_fails_short_pool :
-    wWeightsShortPool.results = [.sel 1, .sel 1, .sel 0, .sel 0, .sel 0, .sel 0] := by decide
+`WeightedRoundRobinSelection.Select` used to (1) drop the zero weights, (2) find the index of the
+current cycle position among the *positive* weights, (3) collect the available upstreams with a
+non-zero weight (indexing `r.Weights[i]` for every available upstream, stopping once as many
+were collected as there are positive weights) and (4) return the collected upstream number
+`index mod (number collected)`. The old loops are kept here to show what the clauses now
+proved at full strength in Props.lean exclude. -/
+
+inductive OldRes where
+  | none | sel (i : Nat) | panicIdx | panicDiv
+deriving DecidableEq, Repr
+
+def oldCollect (ws : List Nat) (cap : Nat) : Pool → Nat → List Nat → Option (List Nat)
+  | [], _, acc => some acc
+  | u :: rest, i, acc =>
+    if u.avail then
+      match ws[i]? with
+      | none => none
+      | some w =>
+        if w = 0 then oldCollect ws cap rest (i + 1) acc
+        else if acc.length + 1 = cap then some (acc ++ [i])
+        else oldCollect ws cap rest (i + 1) (acc ++ [i])
+    else oldCollect ws cap rest (i + 1) acc
+
+def oldPosWeights (ws : List Nat) : List Nat := ws.filter (0 < ·)
+
+def oldPick (idx : Nat) (ups : List Nat) : OldRes :=
+  if ups.length = 0 then .none
+  else match ups[idx % ups.length]? with
+    | some i => .sel i
+    | none => .panicIdx
+
+/-- the old `Select` with two or more weights on a non-empty pool, at counter `c` -/
+def oldSelWRR (ws : List Nat) (pool : Pool) (c : Nat) : OldRes :=
+  if ws.sum = 0 then .panicDiv
+  else match oldCollect ws (oldPosWeights ws).length pool 0 [] with
+    | none => .panicIdx
+    | some ups => oldPick (wrrIndexGo (oldPosWeights ws) 0 0 (inc32 c % ws.sum)) ups
+
+def oldRun (ws : List Nat) (pool : Pool) : Nat → Nat → List OldRes
+  | 0, _ => []
+  | n + 1, c => oldSelWRR ws pool c :: oldRun ws pool n (inc32 c)
+
+def wPanicIndex : Wit := ⟨.wrr [1, 1] 0, [upW 1 false, upW 2 true, upW 3 true], 1⟩
+def wPanicDivide : Wit := ⟨.wrr [0, 0] 0, [upW 1 true], 1⟩
+def wWeightsDown : Wit := ⟨.wrr [1, 3, 1] 0, [upW 1 false, upW 2 true, upW 3 true], 5⟩
+def wWeightsShortPool : Wit := ⟨.wrr [1, 2, 3] 0, [upW 1 true, upW 2 true], 6⟩
+
+/-- old code: `r.Weights[i]` out of range when the pool is longer than the weight list -/
+theorem weightedRR_never_panics_old_code_fails_index :
+    oldRun [1, 1] wPanicIndex.pool 1 0 = [.panicIdx] ∧ wPanicIndex.results = [.sel 1] := by decide
+
+/-- old code: `… % r.totalWeight` with two or more weights, all 0; now nil (every upstream is disabled) -/
+theorem weightedRR_never_panics_old_code_fails_divide :
+    oldRun [0, 0] wPanicDivide.pool 1 0 = [.panicDiv] ∧ wPanicDivide.results = [.none] := by decide
+
+/-- old code: weights 1,3,1 with the first upstream down — over the 5 selections of a cycle the
+    weight-3 upstream (index 1) was chosen twice, the weight-1 upstream (index 2) three times.
+    Now: every upstream keeps its own share and the turn of the unavailable one goes to the next. -/
+theorem weightedRR_honours_weights_old_code_fails :
+    oldRun [1, 3, 1] wWeightsDown.pool 5 0 = [.sel 2, .sel 2, .sel 2, .sel 1, .sel 1] ∧
+    wWeightsDown.results = [.sel 1, .sel 1, .sel 1, .sel 2, .sel 1] := by decide
+
+/-- old code: more weights than upstreams (1,2,3 on two) — the weight-1 upstream was chosen four
+    times in a cycle of 6, the weight-2 upstream twice. Now the weight of the upstream that is not
+    in the pool takes no part: a cycle of 3, one turn for the first and two for the second. -/
+theorem weightedRR_honours_weights_old_code_fails_short_pool :
+    oldRun [1, 2, 3] wWeightsShortPool.pool 6 0 = [.sel 1, .sel 1, .sel 0, .sel 0, .sel 0, .sel 0] ∧
+    wWeightsShortPool.results = [.sel 1, .sel 1, .sel 0, .sel 1, .sel 1, .sel 0] := by decide
 
 /-! ### the same counter-examples as protocol lines (rendered from the terms above) -/
 
@@ -88,6 +135,6 @@ def Wit.line (w : Wit) : String :=
 
 /-- counter-example lines replayed on the implementation on every run -/
 def witnessLines : List String :=
-  [wPanicIndex, wPanicDivide, wRRWrapNil, wRRWrapRepeat, wWeightsDown, wWeightsShortPool].map Wit.line
+  [wRRWrapNil, wRRWrapRepeat].map Wit.line
 
 end CaddyModel.C08
